@@ -17,18 +17,51 @@ def showCall : Verdict → String
   | .clientTooOld => "refused kind=protocol_version_mismatch dir=client-too-old"
   | .serverTooOld => "refused kind=protocol_version_mismatch dir=server-too-old"
 
-/-- "-" = not given (server: no SetProtocolVersion call / client: metadata key absent). -/
+/-- "-" = metadata key absent. -/
 def optArg (s : String) : Option (Option Bytes) :=
   if s = "-" then some none else (parseHexArg s).map some
 
-/-- Server argument → configured server (`none` inside = opted out); outer `none` = panic. -/
-def configure : Option Bytes → Option (Option Server)
-  | none => some none
-  | some v =>
-    match setVersion v with
-    | .unset => some none
-    | .set s => some (some s)
-    | .panic => none
+/-- Server argument = the history of SetProtocolVersion calls: "-" = none, else `v1,v2,…`. -/
+def histArg (s : String) : Option (List Bytes) :=
+  if s = "-" then some [] else (s.splitOn ",").mapM parseHexArg
+
+def showSet : SetResult → String
+  | .unset => "unset"
+  | .set s => s!"set {s.major} {s.minor} {s.patch} {hexArg s.text}"
+  | .panic => "panic"
+
+def showState : Option Server → String
+  | none => "unset"
+  | some s => s!"set {s.major} {s.minor} {s.patch} {hexArg s.text}"
+
+def showOutcome : Outcome → String
+  | .dispatched => "dispatched"
+  | .refused v => showCall v
+  | .otherError => "other-error"
+
+/-- Where the CURRENT code detects each other defect relative to the version guard (same on the
+pipe, HTTP unary and HTTP stream-init routes). -/
+def stageOf : String → Option Stage
+  | "none" => some .none
+  | "params-extra" => some .late
+  | "params-renamed" => some .late
+  | "params-retyped" => some .late
+  | "rows0" => some .early
+  | "rows2" => some .early
+  | "unknown-method" => some .early
+  | "no-method-key" => some .early
+  | "bad-request-version" => some .early
+  | "route-mismatch" => some .early
+  | "wrong-route-kind" => some .early
+  | "content-type" => some .early
+  | _ => none
+
+def callStep (route sv kind cv flaw : String) : String :=
+  if route ≠ "pipe" ∧ route ≠ "http" then "bad-op"
+  else if kind ≠ "describe" ∧ kind ≠ "unary" ∧ kind ≠ "producer" ∧ kind ≠ "exchange" then "bad-op"
+  else match histArg sv, optArg cv, stageOf flaw with
+    | some h, some c, some st => showOutcome (callOutcome (configureSeq h) (kind == "describe") c st)
+    | _, _, _ => "bad-op"
 
 def step (_ : Unit) (ws : List String) : Unit × String :=
   match ws with
@@ -41,28 +74,19 @@ def step (_ : Unit) (ws : List String) : Unit × String :=
     | none => ((), "bad-op")
   | ["set", v] =>
     match parseHexArg v with
-    | some b =>
-      match setVersion b with
-      | .unset => ((), "unset")
-      | .set s => ((), s!"set {s.major} {s.minor} {s.patch} {hexArg s.text}")
-      | .panic => ((), "panic")
+    | some b => ((), showSet (setVersion b))
+    | none => ((), "bad-op")
+  | ["hist", h] =>
+    match histArg h with
+    | some vs => ((), " ".intercalate (vs.map fun v => (showSet (setVersion v)).replace " " ":") ++
+        " final=" ++ (showState (configureSeq vs)).replace " " ":")
     | none => ((), "bad-op")
   | ["check", sv, cv] =>
-    match optArg sv, optArg cv with
-    | some so, some c =>
-      match configure so with
-      | none => ((), "panic")
-      | some srv => ((), showVerdict (gate srv false c))
+    match histArg sv, optArg cv with
+    | some h, some c => ((), showVerdict (gate (configureSeq h) false c))
     | _, _ => ((), "bad-op")
-  | ["call", route, sv, kind, cv] =>
-    if route ≠ "pipe" ∧ route ≠ "http" then ((), "bad-op")
-    else if kind ≠ "describe" ∧ kind ≠ "unary" ∧ kind ≠ "producer" ∧ kind ≠ "exchange" then ((), "bad-op")
-    else match optArg sv, optArg cv with
-      | some so, some c =>
-        match configure so with
-        | none => ((), "panic")
-        | some srv => ((), showCall (gate srv (kind == "describe") c))
-      | _, _ => ((), "bad-op")
+  | ["call", route, sv, kind, cv] => ((), callStep route sv kind cv "none")
+  | ["call", route, sv, kind, cv, flaw] => ((), callStep route sv kind cv flaw)
   | _ => ((), "bad-op")
 
 def drive : IO Unit := driveLoop () step
